@@ -275,3 +275,42 @@ def h2_header_list_limit(li: int, size: int) -> bool:
     if not why and conn.sched.errors:
         why = "exception escaped a task: %r" % (conn.sched.errors[0],)
     return done(why == "", limit=limit, total=total, why=why)
+
+
+# ------------------------------------------------------------------ HTTP/1 keep_alive_max_requests (shares the pipeline rig of C06)
+
+
+@harness(
+    "C18",
+    dom={"kmax": (1, 2), "extra": (0, 1), "ai": (0, 3), "seg": (0, 2), "cut": (0, 10), "body": "bool"},
+    split={"ai": "each"},
+    witnesses=[{"kmax": 1, "extra": 1, "ai": 3, "seg": 1, "cut": 9, "body": True}, {"kmax": 2, "extra": 0, "ai": 0, "seg": 0, "cut": 0, "body": False}],
+    budget=120,
+    per_path=120,
+    bounds="HTTP/1.1 connections carrying exactly keep_alive_max_requests (1 or 2) requests, or one more, with/without bodies, x 4 application styles x segmentation {one read, one cut, byte-wise}: the limit-th response announces close, nothing beyond it is served",
+    encodes=["hypercorn/protocol/h11.py::H11Protocol.stream_send", "hypercorn/protocol/h11.py::H11Protocol._create_stream", "hypercorn/protocol/h11.py::H11Protocol._maybe_recycle"],
+    stubs=["tier B runtime (the pipeline rig and reference of vf.harness.c06.h1_pipeline)"],
+)
+def h1_keep_alive_max(kmax: int, extra: int, ai: int, seg: int, cut: int, body: bool) -> bool:
+    """
+    pre: DOM(h1_keep_alive_max, kmax=kmax, extra=extra, ai=ai, seg=seg, cut=cut, body=body)
+    post: _
+    """
+    enter()
+    from vf.harness import c06
+
+    kmax = conc(kmax, 1, 2)
+    extra = conc(extra, 0, 1)
+    ai = conc(ai, 0, 3)
+    seg = conc(seg, 0, 2)
+    cut = conc(cut, 0, 10)
+    body = True if body else False
+    n = kmax + extra
+    if ai == 3 and extra:
+        return done(True, skipped="bytes after the last allowed request: known finding of C06")
+    r = 1 if body else 0  # POST with a body / GET
+    kidx = {1: 1, 2: 2}[kmax]  # index into c06's table [3, 1, 2, 1000]
+    if c06.QUICK and n == 3 and seg != 0:
+        seg = 0
+    ok = c06.h1_pipeline(n=n, r0=r, r1=r, r2=r, seg=seg, cut=min(cut, c06.CUTMAX), ai=ai, kmax=kidx)
+    return done(ok, kmax=kmax, requests=n, app=c06.APPS[ai], seg=seg, cut=cut, body=body)
